@@ -1006,18 +1006,34 @@ var g = &grammar{
 			expr: &actionExpr{
 				pos: position{line: 292, col: 18, offset: 9391},
 				run: (*parser).callonFieldModifier1,
-				expr: &choiceExpr{
+				expr: &seqExpr{
 					pos: position{line: 292, col: 19, offset: 9392},
-					alternatives: []interface{}{
-						&litMatcher{
-							pos:        position{line: 292, col: 19, offset: 9392},
-							val:        "required",
-							ignoreCase: false,
+					exprs: []interface{}{
+						&choiceExpr{
+							pos: position{line: 292, col: 19, offset: 9392},
+							alternatives: []interface{}{
+								&litMatcher{
+									pos:        position{line: 292, col: 19, offset: 9392},
+									val:        "required",
+									ignoreCase: false,
+								},
+								&litMatcher{
+									pos:        position{line: 292, col: 32, offset: 9405},
+									val:        "optional",
+									ignoreCase: false,
+								},
+							},
 						},
-						&litMatcher{
-							pos:        position{line: 292, col: 32, offset: 9405},
-							val:        "optional",
-							ignoreCase: false,
+						&notExpr{
+							pos: position{line: 292, col: 43, offset: 9416},
+							expr: &charClassMatcher{
+								pos:        position{line: 292, col: 44, offset: 9417},
+								val:        "[A-Za-z0-9._]",
+								chars:      []rune{'.', '_'},
+								ranges:     []rune{'A', 'Z', 'a', 'z', '0', '9'},
+								ignoreCase: false,
+								inverted:   false,
+							},
 						},
 					},
 				},
